@@ -64,11 +64,33 @@ def rectangular(rng, nx=None, ny=None, nz=None, convention=None, atmos_type=None
     atmos_type = rng.randint(0, 2) if atmos_type is None else atmos_type
     if origin is None:
         origin = [round(rng.uniform(-5000, 5000), 2), round(rng.uniform(-5000, 5000), 2), round(rng.uniform(-500, 1500), 2)]
+        if rng.random() < 0.25:
+            # coordinates that are exactly zero: the default origin (top of the model at elevation 0), a column centred
+            # on an axis, a layer centred on elevation zero
+            k = rng.randint(0, 3)
+            if k == 0:
+                origin = [0.0, 0.0, 0.0]
+            else:
+                dx[0], dy[0], dz[0] = float(2 * rng.randint(3, 90)), float(2 * rng.randint(3, 90)), float(2 * rng.randint(2, 30))
+                origin = [-dx[0] / 2 if k in (1, 3) else origin[0], -dy[0] / 2 if k in (2, 3) else origin[1], dz[0] / 2 if k == 3 else origin[2]]
     geo = mg.mulgrid().rectangular(dx, dy, dz, convention=convention, atmos_type=atmos_type, origin=origin,
                                    block_order=block_order)
     desc = {'kind': 'rectangular', 'dx': dx, 'dy': dy, 'dz': dz, 'convention': convention, 'atmos_type': atmos_type,
             'origin': origin, 'block_order': block_order}
     return geo, desc
+
+
+def reverse_stored_connections(geo, every):
+    """The same geometry as a file listing every `every`-th connection with its two columns the other way round would
+    give it (connection objects and the dictionary key both turned)."""
+    n = 0
+    for i, con in enumerate(geo.connectionlist):
+        if i % every == 0:
+            con.column.reverse()
+            n += 1
+    geo.connection = dict((tuple(c.name for c in con.column), con) for con in geo.connectionlist)
+    geo.setup_block_connection_name_index()
+    return n
 
 
 def rebuild(desc):
@@ -84,6 +106,8 @@ def rebuild(desc):
             geo.atmosphere_type = desc['atmos_type']
     else:
         raise ValueError(desc)
+    if desc.get('connections_reversed_every'):
+        reverse_stored_connections(geo, desc['connections_reversed_every'])
     for name, z in (desc.get('surfaces') or {}).items():
         geo.column[name].surface = z
     if desc.get('surfaces'):
